@@ -1,6 +1,209 @@
-import WsVerif.Model.Basic
-/-! placeholder until the chunk model lands (replaced by the full file) -/
+import WsVerif.Model.Chunk
+import WsVerif.Model.Peak
+import Mathlib.Algebra.BigOperators.Group.List.Basic
+import Mathlib.Algebra.Order.Field.Rat
+import Mathlib.Tactic.Ring
+/-!
+# C07 — dask-backed data: any chunking, any reduction order, any interleaving of atomic calls
+
+What Lean decides here: (i) sums and elementwise maps over a chunked array do not depend on the chunking or
+on the shape of the reduction tree; (ii) `apply_ufunc(dask="parallelized")` over a core dimension succeeds
+exactly when that dimension is a single chunk, so `chunk({dim: None})` (a no-op) leaves the peak statistics
+failing on freq-chunked input — the defect — while `chunk({dim: -1})` makes them succeed with the in-memory
+value for every chunking; (iii) if each call into the partitioning extension overwrites the static state it
+reads, every interleaving of whole calls gives each call the result it has from a fresh state.
+Not decided here: dask's graph construction and schedulers (carried by the correspondence check), and the
+atomicity of the C call (rests on the wrapper never releasing the GIL; checked textually by the translator).
+-/
 namespace WS.C07
-theorem map_flatten {α β : Type} (f : α → β) (chunks : List (List α)) :
-    (chunks.map (·.map f)).flatten = chunks.flatten.map f := by simp [List.map_flatten]
+open WS WS.Chunk
+
+/-! ### reductions and blockwise maps -/
+
+/-- summing per chunk and then summing the partial sums is the flat sum — for every chunking -/
+theorem sum_chunks (c : Chunks) : (chunkSums c).sum = (content c).sum := by
+  unfold chunkSums content
+  induction c with
+  | nil => simp
+  | cons a c ih => simp only [List.map_cons, List.sum_cons, List.flatten_cons, List.sum_append, ih]
+
+theorem tree_eval_eq_sum_leaves (t : Tree) : t.eval = t.leaves.sum := by
+  induction t with
+  | leaf x => simp [Tree.eval, Tree.leaves]
+  | node l r ihl ihr => simp [Tree.eval, Tree.leaves, List.sum_append, ihl, ihr]
+
+/-- any reduction tree that consumes the partial sums in any order evaluates to the flat sum -/
+theorem tree_reduce_sum (c : Chunks) (t : Tree) (h : t.leaves.Perm (chunkSums c)) :
+    t.eval = (content c).sum := by
+  rw [tree_eval_eq_sum_leaves, h.sum_eq, sum_chunks]
+
+/-- two chunkings of the same content, reduced by any two trees, agree -/
+theorem tree_reduce_chunking_irrelevant (c c' : Chunks) (t t' : Tree) (hc : content c = content c')
+    (h : t.leaves.Perm (chunkSums c)) (h' : t'.leaves.Perm (chunkSums c')) : t.eval = t'.eval := by
+  rw [tree_reduce_sum c t h, tree_reduce_sum c' t' h', hc]
+
+/-- an elementwise operation applied block by block is the operation applied to the content -/
+theorem map_chunks (f : ℚ → ℚ) (c : Chunks) : content (blockwiseMap f c) = (content c).map f := by
+  unfold content blockwiseMap
+  rw [List.map_flatten]
+
+/-- … and it keeps the chunk structure -/
+theorem map_chunks_shape (f : ℚ → ℚ) (c : Chunks) :
+    (blockwiseMap f c).map List.length = c.map List.length := by
+  simp [blockwiseMap]
+
+/-- blockwise map followed by a tree reduction (e.g. `(efth * df * dd).sum()`) -/
+theorem map_then_reduce (f : ℚ → ℚ) (c : Chunks) (t : Tree)
+    (h : t.leaves.Perm (chunkSums (blockwiseMap f c))) : t.eval = ((content c).map f).sum := by
+  rw [tree_reduce_sum _ t h, map_chunks]
+
+/-! ### core dimensions -/
+
+/-- `apply_ufunc(dask="parallelized")` succeeds iff the core dimension is not split over several chunks -/
+theorem applyCore_ok_iff_single_chunk {β : Type} (f : List ℚ → β) (c : Chunks) :
+    (∃ b, applyCore f c = .ok b) ↔ c.length ≤ 1 := by
+  unfold applyCore
+  by_cases h : 1 < c.length
+  · simp [h]
+  · simp [h]; omega
+
+/-- and when it succeeds the value is `f` of the whole content -/
+theorem applyCore_value {β : Type} (f : List ℚ → β) (c : Chunks) (h : c.length ≤ 1) :
+    applyCore f c = .ok (f (content c)) := by
+  unfold applyCore
+  simp [Nat.not_lt.mpr h]
+
+theorem applyCore_error {β : Type} (f : List ℚ → β) (c : Chunks) (h : 1 < c.length) :
+    applyCore f c = .error .valueError := by
+  unfold applyCore
+  simp [h]
+
+/-- **the repaired code**: after `chunk({dim: -1})` the call succeeds for *every* chunking and returns the
+    in-memory value -/
+theorem rechunkAll_single {β : Type} (f : List ℚ → β) (c : Chunks) :
+    applyCore f (rechunkAll c) = .ok (f (content c)) := by
+  simp [applyCore, rechunkAll, content]
+
+/-- rechunking does not change the content -/
+theorem rechunkAll_content (c : Chunks) : content (rechunkAll c) = content c := by
+  simp [rechunkAll, content]
+
+/-- any two chunkings of the same content give the same result -/
+theorem rechunkAll_chunking_irrelevant {β : Type} (f : List ℚ → β) (c c' : Chunks)
+    (h : content c = content c') : applyCore f (rechunkAll c) = applyCore f (rechunkAll c') := by
+  rw [rechunkAll_single, rechunkAll_single, h]
+
+/-- **the defect that was repaired** (`chunk({dim: None})` is a no-op): with the core dimension in two or
+    more chunks the call raises `ValueError`, whatever the function -/
+theorem rechunkNone_fails {β : Type} (f : List ℚ → β) (c : Chunks) (h : 1 < c.length) :
+    applyCore f (rechunkNone c) = .error .valueError := applyCore_error f c h
+
+/-- concrete witness: four frequencies in two chunks, the peak index of `[1,3,2,1]` -/
+theorem peak_stats_chunk_fails :
+    applyCore Peak.peakIdx (rechunkNone [[1, 3], [2, 1]]) = .error .valueError ∧
+    applyCore Peak.peakIdx (rechunkAll [[1, 3], [2, 1]]) = .ok 1 ∧
+    applyCore Peak.peakIdx (rechunkNone [[1, 3, 2, 1]]) = .ok 1 := by
+  decide +kernel
+
+/-- partial correctness of the unrepaired code: on single-chunk core dimensions it agrees with the repair -/
+theorem rechunkNone_partial {β : Type} (f : List ℚ → β) (c : Chunks) (h : c.length ≤ 1) :
+    applyCore f (rechunkNone c) = applyCore f (rechunkAll c) := by
+  rw [rechunkAll_single]; exact applyCore_value f c h
+
+/-! ### two core dimensions (freq and dir both chunked) -/
+
+theorem rechunkAll2_content (c : Chunks2) : content2 (rechunkAll2 c) = content2 c := by
+  simp [rechunkAll2, content2, Function.comp_def]
+
+theorem rechunkAll2_single {β : Type} (f : Mat → β) (c : Chunks2) :
+    applyCore2 f (rechunkAll2 c) = .ok (f (content2 c)) := by
+  have h : content2 (rechunkAll2 c) = content2 c := rechunkAll2_content c
+  unfold applyCore2
+  rw [h]
+  simp [rechunkAll2]
+
+theorem rechunkAll2_chunking_irrelevant {β : Type} (f : Mat → β) (c c' : Chunks2)
+    (h : content2 c = content2 c') : applyCore2 f (rechunkAll2 c) = applyCore2 f (rechunkAll2 c') := by
+  rw [rechunkAll2_single, rechunkAll2_single, h]
+
+/-- freq split in two chunks ⇒ error -/
+theorem applyCore2_fails_freq {β : Type} (f : Mat → β) (c : Chunks2) (h : 1 < c.length) :
+    applyCore2 f c = .error .valueError := by
+  simp [applyCore2, h]
+
+/-- the sum of all per-block sums is the sum of the logical matrix, for every 2-D chunking -/
+theorem sum_chunks2 (c : Chunks2) : (blockSums2 c).sum = ((content2 c).map List.sum).sum := by
+  unfold blockSums2 content2
+  induction c with
+  | nil => simp
+  | cons rows c ih =>
+    simp only [List.map_cons, List.sum_cons, List.flatten_cons, List.map_append, List.sum_append, ih]
+    congr 1
+    rw [List.map_map]
+    congr 2
+    funext row
+    exact sum_chunks row
+
+/-! ### interleaving of atomic calls that share static state -/
+
+/-- if the output of a call does not depend on the state it finds (it overwrites before it reads), then in
+    every sequence of calls from every initial state, each call returns what it returns from a fresh state -/
+theorem interleaving_irrelevant {σ In Out : Type} (call : σ → In → σ × Out)
+    (h : ∀ s s' x, (call s x).2 = (call s' x).2) (s0 fresh : σ) (xs : List In) :
+    runCalls call s0 xs = xs.map fun x => (call fresh x).2 := by
+  induction xs generalizing s0 with
+  | nil => rfl
+  | cons x xs ih => simp only [runCalls, List.map_cons, ih, h s0 fresh x]
+
+/-- position-wise form -/
+theorem interleaving_get {σ In Out : Type} (call : σ → In → σ × Out)
+    (h : ∀ s s' x, (call s x).2 = (call s' x).2) (s0 fresh : σ) (xs : List In) (i : Nat) :
+    (runCalls call s0 xs)[i]? = (xs[i]?).map fun x => (call fresh x).2 := by
+  rw [interleaving_irrelevant call h s0 fresh]; simp
+
+/-- two interleavings of the same tagged calls (tag = thread and call number) produce the same tagged
+    results -/
+theorem interleavings_agree {σ In Out Tag : Type} (call : σ → In → σ × Out)
+    (h : ∀ s s' x, (call s x).2 = (call s' x).2) (s0 s1 : σ) (xs ys : List (Tag × In))
+    (hp : xs.Perm ys) :
+    ((xs.map Prod.fst).zip (runCalls call s0 (xs.map Prod.snd))).Perm
+      ((ys.map Prod.fst).zip (runCalls call s1 (ys.map Prod.snd))) := by
+  rw [interleaving_irrelevant call h s0 s0, interleaving_irrelevant call h s1 s0]
+  rw [List.map_map, List.map_map, List.zip_map', List.zip_map']
+  exact hp.map _
+
+/-- a call of the form "initialise the static state from the input, run, read the result" satisfies the
+    hypothesis of `interleaving_irrelevant` -/
+theorem static_state_irrelevant {σ In Out : Type} (init : In → σ) (run : σ → σ) (out : σ → Out)
+    (s s' : σ) (x : In) :
+    ((fun (_ : σ) (x : In) => (run (init x), out (run (init x)))) s x).2 =
+    ((fun (_ : σ) (x : In) => (run (init x), out (run (init x)))) s' x).2 := rfl
+
+/-- contrast: a call that *reads* the state it finds is order-dependent (why the hypothesis matters) -/
+theorem stale_state_matters :
+    runCalls (fun (s : Nat) (x : Nat) => (x, s + x)) 0 [1, 2] ≠
+    runCalls (fun (s : Nat) (x : Nat) => (x, s + x)) 0 [2, 1] := by decide
+
+/-! ### non-vacuity -/
+
+example : (Tree.node (.leaf 3) (.node (.leaf 7) (.leaf 3))).leaves.Perm (chunkSums [[1, 2], [3], [3, 4]]) := by
+  decide +kernel
+example := tree_reduce_sum [[1, 2], [3], [3, 4]] (.node (.leaf 3) (.node (.leaf 7) (.leaf 3))) (by decide +kernel)
+example := applyCore_value Peak.peakIdx [[1, 3, 2, 1]] (by decide)
+example := rechunkNone_fails Peak.peakIdx [[1, 3], [2, 1]] (by decide)
+example := rechunkAll_chunking_irrelevant Peak.peakIdx [[1, 3], [2, 1]] [[1], [3, 2, 1]] (by decide)
+example := rechunkAll2_chunking_irrelevant (fun e => Peak.dpIdx 2 e) [[[[1], [2]]], [[[3, 4]]]] [[[[1, 2]], [[3], [4]]]]
+  (by decide)
+example := applyCore2_fails_freq (fun e => Peak.dpIdx 2 e) [[[[1], [2]]], [[[3, 4]]]] (by decide)
+example := interleaving_irrelevant (fun (_ : Nat) (x : Nat) => (x * x, x * x + 1))
+  (fun _ _ _ => rfl) 5 0 [3, 1, 2]
+example := interleavings_agree (Tag := String) (fun (_ : Nat) (x : Nat) => (x * x, x * x + 1))
+  (fun _ _ _ => rfl) 5 0 [("a", 3), ("b", 1)] [("b", 1), ("a", 3)] (by decide)
+example := tree_reduce_chunking_irrelevant [[1, 2], [3], [3, 4]] [[1], [2, 3, 3, 4]]
+  (.node (.leaf 3) (.node (.leaf 7) (.leaf 3))) (.node (.leaf 12) (.leaf 1)) (by decide)
+  (by decide +kernel) (by decide +kernel)
+example := map_then_reduce (fun x => 2 * x) [[1, 2], [3]] (.node (.leaf 6) (.leaf 6)) (by decide +kernel)
+example := applyCore_error Peak.peakIdx [[1, 3], [2, 1]] (by decide)
+example := rechunkNone_partial Peak.peakIdx [[1, 3, 2, 1]] (by decide)
+
 end WS.C07
